@@ -73,4 +73,25 @@ def bind (ps : List Param) (args : List Arg) : Res :=
   | (.ok, ast) => if args.length > ps.length && !ast then .tooMany else .ok
   | (e, _) => e
 
+/-! ### Union receivers (checkAndPropagateArgsForUnionWithReturnT)
+
+Every class of the receiver is checked in turn. A class's method may have several declarations (the first one
+and its overloads): when the first rejects the call the others are tried in order and the first that accepts
+settles that class; if none accepts, the error of the last one tried is the error of the call. -/
+
+def tryOverloads (args : List Arg) : List (List Param) → Res → Res
+  | [], last => last
+  | o :: os, _ => let r := bind o args; if r == .ok then .ok else tryOverloads args os r
+
+/-- one class: its declarations in order -/
+def bindClass (decls : List (List Param)) (args : List Arg) : Res :=
+  match decls with
+  | [] => .ok
+  | d :: os => let r := bind d args; if r == .ok then .ok else tryOverloads args os r
+
+def bindUnion (classes : List (List (List Param))) (args : List Arg) : Res :=
+  match classes with
+  | [] => .ok
+  | c :: rest => let r := bindClass c args; if r == .ok then bindUnion rest args else r
+
 end RubyTi.Bind
